@@ -646,6 +646,83 @@ def failing_callback_runs(res: Result, only: str | None = None) -> int:
     return n
 
 
+def late_session_runs(res: Result, only: str | None = None) -> int:
+    """disconnect() is called while the connect is still waiting for the device's hello, gives up waiting after its 5 s and asks the device
+    to disconnect; the slow device then answers the hello (the session comes up after all).  Whether or not the caller abandons that
+    disconnect() call, the end of this session - by the device - is noticed: stop callback, refusal of work, a fresh connect accepted."""
+    from aioesphomeapi.core import APIConnectionError
+
+    from ..world import ConnWorld, mk
+
+    n = 0
+    for noise in (False, True):
+        for abandon in (False, True):
+            for ender in ("eof", "garbage", "silence"):
+                key = f"late-session:{'noise' if noise else 'plain'}:{'disconnect-abandoned' if abandon else 'disconnect-waiting'}:{ender}"
+                if only is not None and key != only:
+                    continue
+                w = ConnWorld(client=True, noise=noise, keepalive=10.0, login=True)
+                stops: list[bool] = []
+                try:
+                    async def on_stop(expected: bool, _s: list[bool] = stops) -> None:
+                        _s.append(bool(expected))
+
+                    w.spawn("connect1", lambda: w.client.connect(on_stop=on_stop, login=True))
+                    w.drain()
+                    sock = w.net.sockets[-1]
+                    w.io_connect(sock, 0)
+                    w.drain()
+                    if noise:
+                        w.io_chunk(sock, w.noise_handshake_bytes())
+                        w.drain()
+                    w.spawn("disc", lambda: w.client.disconnect())
+                    w.drain()
+                    w.loop.advance_to(w.loop.time() + 5.0)  # DISCONNECT_CONNECT_TIMEOUT
+                    w.drain()
+                    if sock.closed:
+                        continue
+                    w.io_chunk(sock, w.dframe(w.hello_resp()) + w.dframe(w.connect_resp()))
+                    w.drain()
+                    if abandon:
+                        w.cancel("disc")
+                        w.drain()
+                    c = w.client._connection
+                    alive = c is not None and c.is_connected
+                    n += 1
+                    d = {"harness": "c19-late-session", "key": key}
+                    if not alive:
+                        continue  # the late hello did not bring a session up: nothing to end
+                    if ender == "eof":
+                        w.io_eof(sock)
+                    elif ender == "garbage":
+                        w.io_chunk(sock, b"\x7f\x7f\x7f" if not noise else b"\x00\x00\x01x")
+                    w.drain()
+                    w.run_timers(w.loop.time() + 8 * 10.0)
+                    if len(stops) != 1:
+                        res.add(key, f"C19:wedged:the session that came up late was ended by the device ({ender}); stop callback calls: {stops}", d)
+                        continue
+                    try:
+                        w.client.switch_command(1, True)
+                        res.add(key, "C19:work-accepted:a command was accepted after the late session had ended", d)
+                        continue
+                    except APIConnectionError:
+                        pass
+                    if noise:
+                        from .. import noise_ref
+                        from ..world import seed_bytes
+
+                        w.ndev = noise_ref.NoiseDevice(w.psk, seed_bytes("eph2"), name=w.device_name)
+                        w._fed = 0
+                    w.spawn("connect2", lambda: w.client.connect(on_stop=on_stop, login=True))
+                    w.drain()
+                    r = w.results.get("connect2")
+                    if r is not None and r[0] == "exc" and "Already connected" in str(r[1]):
+                        res.add(key, "C19:wedged:a fresh connect() after the late session ended is refused with 'Already connected'", d)
+                finally:
+                    w.close()
+    return n
+
+
 def silent_device_runs(res: Result, only: str | None = None) -> int:
     """A device that dies without a word (the TCP connection stays open, no more bytes): after the keepalive has given up, the client must
     refuse work with a connection error and must accept - and complete - a fresh connect.  Histories with 0-3 answered pings before."""
@@ -758,6 +835,7 @@ def run(tier: str, seed: int) -> Result:
     sweep = surface_sweep(res)
     sweep["silent_device_histories"] = silent_device_runs(res)
     sweep["failing_callback_histories"] = failing_callback_runs(res)
+    sweep["late_session_histories"] = late_session_runs(res)
     if sweep["surface_methods"] < 40:
         raise HarnessError(f"vacuous surface sweep: {sweep}")
     need = {"session", "refused", "accepted", "work-refused", "work-accepted", "start-failed", "finish-failed"}
@@ -790,6 +868,11 @@ def run(tier: str, seed: int) -> Result:
 
 def replay(rp: dict[str, Any]) -> bool:
     d = rp["detail"]
+    if d.get("harness") == "c19-late-session":
+        res = Result("C19", "model_checking")
+        late_session_runs(res, only=d["key"])
+        print(d["key"], "->", [v.clause for v in res.violations] or "holds")
+        return not res.violations
     if d.get("harness") == "c19-failing-callback":
         res = Result("C19", "model_checking")
         failing_callback_runs(res, only=d["key"])
